@@ -285,8 +285,20 @@ impl<L: Language, N: Analysis<L>> EGraph<L, N> {
             .map(change_proven_permutation_from_from_to_to)
             .collect();
 
+        #[cfg(slotted_egraphs_verif)]
+        let verif_before: (Vec<SlotMap>, Vec<SlotMap>) = (
+            self.classes[&from.id].group.generators().into_iter().map(|p| p.elem).collect(),
+            self.classes[&to.id].group.generators().into_iter().map(|p| p.elem).collect(),
+        );
+
         if self.classes.get_mut(&to.id).unwrap().group.add_set(set) {
             self.touched_class(to.id, PendingType::Full);
+        }
+
+        #[cfg(slotted_egraphs_verif)]
+        {
+            let after: Vec<SlotMap> = self.classes[&to.id].group.generators().into_iter().map(|p| p.elem).collect();
+            crate::verif::group_merge(from.id.0, to.id.0, &map, &verif_before.0, &verif_before.1, &after);
         }
 
         // touched because the class is now dead and no e-nodes should point to it.
